@@ -53,7 +53,38 @@ func cmdDump(args []string) int {
 	return 0
 }
 
+// cmdAlias runs the slice-ownership lint over every module function (debug aid).
+func cmdAlias(args []string) int {
+	repo := "/repo"
+	if len(args) > 0 {
+		repo = args[0]
+	}
+	if _, err := os.Stat("/verif/baseline_funcs.txt"); err == nil {
+		an.BaselineFile = "/verif/baseline_funcs.txt"
+	}
+	p, err := an.Load(repo, nil, "")
+	if err != nil {
+		fmt.Println(err)
+		return 2
+	}
+	n := 0
+	for _, fn := range p.ModuleFuncs(nil) {
+		if strings.HasSuffix(p.Fset.Position(fn.Pos()).Filename, "_test.go") {
+			continue
+		}
+		for _, f := range an.AliasLints(fn) {
+			n++
+			fmt.Printf("%s %s: %s\n", p.InstrPos(f.Instr), an.QualName(fn), f.Msg)
+		}
+	}
+	fmt.Println("findings:", n)
+	return 0
+}
+
 func init() {
+	if len(os.Args) > 1 && os.Args[1] == "aliaslint" {
+		os.Exit(cmdAlias(os.Args[2:]))
+	}
 	if len(os.Args) > 1 && os.Args[1] == "dump" {
 		os.Exit(cmdDump(os.Args[2:]))
 	}
